@@ -368,6 +368,18 @@ def nextToken : Bool → List Nat → Res (Token × List Nat)
     else if isProblematic b then nextToken true r
     else .error .syntax
 
+/-- Does the token `next_token` produces at this position come from the bare keyword `R`
+    (the `b'R'` arm) rather than from the name `/R`?  Follows `next_token`'s own skipping: white
+    space, `;` and problematic bytes (every arm tested before `b'R'` is for another byte). -/
+def bareRAhead : List Nat → Bool
+  | [] => false
+  | b :: r =>
+    if isAsciiWs b then bareRAhead r
+    else if b == 82 then true
+    else if b == 59 then bareRAhead r
+    else if isProblematic b then bareRAhead r
+    else false
+
 /-- `Lexer::next_token` on a fresh position -/
 def next (inp : List Nat) : Res (Token × List Nat) := nextToken false inp
 
